@@ -8,21 +8,22 @@ ids that look like another id's storage prefix (the real `sanitize_table_prefix`
 construct those strings, never as an oracle) plus one pair of punctuation variants whose
 sha256 digests agree in the first 8 hex digits (found by a deterministic search at start-up).
 
-For every unordered pair {X, Y} of different ids, on every backend family:
-  one world = two app objects in one process (SQLite: on one fresh database file); both apps are
-  populated through the public API, step by step and interleaved (route five calls, one with an
-  argument that goes to the client data store, one under registration concurrency control;
-  heartbeat; claim three through get_invocations_to_run + RUNNING; one result, one exception; a
-  blocking edge; data-store value, workflow data / run / sub-invocation; event + status + cron
-  triggers, an emitted event, run/execution claims; history flushed).
-  Then, for both directions (A acts, B is observed): a full read-out of B (public queries of every
-  component; non-destructive queue peek; for SQLite a raw dump of every table that B's creation
-  added to sqlite_master), every operation of the alphabet on A (routes, retrieve, claim, status,
-  result, exception, heartbeat, event, trigger loop, workflow data, data store, claims, auto purge,
-  re-registration of triggers, purge of each component, purge of the app, re-population), and after
-  each operation the read-out of B again.
-Thorough tier: additionally every unordered triple of a 12-id core set (each of the three ids acting
-in turn, the other two observed), and a larger id set.
+For every ordered pair (A, B) of different ids, on every backend family, one fresh world:
+  two app objects in one process (SQLite: on one fresh database file); both apps are populated through
+  the public API, step by step and interleaved (event + status + cron triggers; five routed calls, one
+  with an argument that goes to the client data store, one under registration concurrency control;
+  heartbeat; three claimed through get_invocations_to_run and set RUNNING; one result, one stored
+  exception; a blocking edge; a data-store value, workflow data / run / sub-invocation; an emitted
+  event, run/execution claims, a cron execution; history flushed).
+  Then a full read-out of B (public queries of every component; non-destructive queue peek; for SQLite
+  the names and a raw dump of every table that B's creation added to sqlite_master), then every
+  operation of the alphabet on A (auto purge, routes, retrieve, claim, status, result, exception, retry,
+  heartbeat, event, trigger loop, workflow data, data store, claims, recovery scans, re-registration
+  of triggers, purge of each component, purge of the app, re-population), and after each operation the
+  read-out of B again.
+Thorough tier: a larger id set; every ordered pair of a 12-id core again with the purges before the
+writes; every unordered triple of that core (each of the three ids acting in turn, the other two
+observed).
 
 Oracle (the property itself):
   * B's read-out is identical before and after every operation on A;
@@ -37,9 +38,7 @@ import hashlib
 import itertools
 import re
 import sqlite3
-import threading as _threading
-import types
-from datetime import UTC, datetime, timedelta
+from datetime import UTC, datetime
 from typing import Any, Callable
 
 from vf import env, par, tasks, tasks_c17
@@ -50,52 +49,16 @@ from vf.report import Ctx, Partial, canon, digest
 # ---------------------------------------------------------------------------
 # environment: one thread, pooled connections
 # ---------------------------------------------------------------------------
-class _InlineThread:
-    """threading.Thread whose start() runs the target in the caller: the history writers of the state
-    backend (one thread per record) become synchronous, so a world is a single-threaded execution."""
-
-    def __init__(self, group: Any = None, target: Any = None, name: Any = None, args: tuple = (),
-                 kwargs: dict | None = None, daemon: Any = None) -> None:
-        self._target, self._args, self._kwargs = target, args, kwargs or {}
-        self.name = name or "inline"
-        self.daemon = daemon
-
-    def start(self) -> None:
-        if self._target is not None:
-            self._target(*self._args, **self._kwargs)
-
-    def join(self, timeout: Any = None) -> None:
-        return None
-
-    def is_alive(self) -> bool:
-        return False
-
-
-class _InlineThreading(types.ModuleType):
-    _vf_threading_shim = True
-
-    def __init__(self) -> None:
-        super().__init__("threading")
-        self.Thread = _InlineThread
-
-    def __getattr__(self, name: str) -> Any:
-        return getattr(_threading, name)
-
-
-_SETUP = False
-
-
 def _setup() -> None:
-    """Idempotent. pynenc opens a new connection (5 PRAGMAs) per statement group; the connection pool of
-    vf.sqlproxy (same file -> same connections, PRAGMAs once, repeated CREATE IF NOT EXISTS skipped)
-    makes a world ~6x cheaper.  Its zero busy-timeout is harmless in a single-threaded world."""
-    global _SETUP
-    if _SETUP:
-        return
-    from vf import sqlproxy
+    """Idempotent (vf.main already does it).  e1.prepare installs (a) the threading stand-in whose threads
+    run inline outside a scheduler: the history writers of the state backend (one thread per record) become
+    synchronous, so a world is a single-threaded execution; (b) the connection pool of vf.sqlproxy: pynenc
+    opens a new connection (5 PRAGMAs) per statement group, the pool (same file -> same connections,
+    PRAGMAs once, repeated CREATE IF NOT EXISTS skipped) makes a world ~6x cheaper; its zero busy-timeout
+    is harmless in a single-threaded world."""
+    from vf import e1
 
-    env.install(threading_shim=_InlineThreading(), sqlite_shim=sqlproxy.SQLITE_SHIM)
-    _SETUP = True
+    e1.prepare()
 
 
 NAME_RE = re.compile(r"^[A-Za-z0-9_]+$")
